@@ -5,15 +5,16 @@
     thread is a delivery (Storage.DeliverMessage), an APPEND, or one of the
     atomic operations CREATE / UID COPY / UID STORE (incl. the Junk move) /
     EXPUNGE of Model/Ops.v; deliveries and appends advance by ATOMIC MICRO-STEPS
-    (one SQL statement each) with the uid they read from uid_next kept in a
-    thread-local register.  A schedule is any list of thread indices;
+    (one SQL statement each) with the uid handed out by the allocation step kept
+    in a thread-local register (state of the code: with
+    fixes/c08-atomic-uidnext.patch and fixes/c08-deliver-folder-race.patch).  A schedule is any list of thread indices;
     [run_sched] interleaves accordingly.  Theorems hold for EVERY schedule and
     every list of programs, from every initial store that satisfies
     UNIQUE(mailbox_id,uid) and whose links refer to allocated message rows
     ([store_ok]; [store_ok_init]: the store of a new account does). *)
 From Coq Require Import String Ascii List Bool ZArith.
 From Raven Require Import Base.GoStr Model.Store Model.Ops Model.Conc
-  Proof.ConcStore Proof.ConcInv Proof.ConcAck Proof.ConcBounded.
+  Proof.ConcStore Proof.ConcInv Proof.ConcAck Proof.ConcNoFail Proof.ConcBounded.
 Import ListNotations.
 Local Open Scope Z_scope.
 
@@ -88,34 +89,59 @@ Example solo_is_op_deliver_new_folder :
   fst (solo (init 0) (PDeliver (S_ "D") 9)) = fst (op_deliver (init 0) (S_ "D") 9).
 Proof. vm_compute. reflexivity. Qed.
 
-(** (e) REFUTED — class uidnext_race: two deliveries to one mailbox,
-    A.read B.read B.update B.insert A.update A.insert: A would succeed on its
-    own and is answered with a permanent failure *)
-Theorem c08_refuted_lost_delivery :
-  classify (init 0) w_ps w_sch = Some UidNextRace /\
-  is_okst (snd (solo (init 0) (PDeliver INBOX 0))) = true /\
-  failed_at (run_sched w_sch (init_cfg (init 0) w_ps)) 0 = true /\
-  mbox_view (run_sched w_sch (init_cfg (init 0) w_ps)) INBOX = (3, [(1, 1)]).
-Proof. exact c08_refuted_lost_delivery_l. Qed.
-Print Assumptions c08_refuted_lost_delivery.
+(** (e) NO SPURIOUS FAILURE — every schedule, any number of deliveries, appends
+    and CREATEs, from any store with UIDNEXT above the UIDs, existing home rows
+    and distinct row ids: a thread is refused only if it is an APPEND to a
+    folder that did not exist when the run started (NO [TRYCREATE]) or a
+    delivery to the empty folder name — both are refused on their own as well —
+    and never after its message row was written ([o = None]) *)
+Theorem c08_no_spurious_failure : forall s ps sch i th o,
+  good_store s -> forallb simple ps = true ->
+  nth_error (c_threads (run_sched sch (init_cfg s ps))) i = Some th ->
+  t_st th = SFail o ->
+  o = None /\ find_name s (prog_folder (t_prog th)) = None /\
+  (is_append (t_prog th) = true \/ prog_folder (t_prog th) = []).
+Proof. exact c08_no_spurious_failure_l. Qed.
+Print Assumptions c08_no_spurious_failure.
 
-(** (e) REFUTED — class create_race: two first deliveries to a missing folder *)
-Theorem c08_refuted_create_race :
-  classify (init 0) w2_ps w2_sch = Some CreateRace /\
-  is_okst (snd (solo (init 0) (PDeliver (S_ "D") 8))) = true /\
-  failed_at (run_sched w2_sch (init_cfg (init 0) w2_ps)) 1 = true.
-Proof. exact c08_refuted_create_race_l. Qed.
-Print Assumptions c08_refuted_create_race.
+(** (d) counters agree: UIDNEXT of every mailbox stays above every UID in it,
+    at every point of every schedule (same thread sets) *)
+Theorem c08_counters_agree : forall s ps sch,
+  good_store s -> forallb simple ps = true ->
+  forall l m, In l (links (c_store (run_sched sch (init_cfg s ps)))) ->
+              In m (mboxes (c_store (run_sched sch (init_cfg s ps)))) ->
+              mb_id m = lk_mbox l -> lk_uid l < mb_next m.
+Proof. exact c08_counters_agree_l. Qed.
+Print Assumptions c08_counters_agree.
 
-(** (e) outside the two classes — BOUNDED (complete enumeration of the schedule
-    tree, bounds in the statement): for each listed small thread set (two or
-    three deliveries/appends to one existing mailbox, to two mailboxes, to one
-    missing folder) and every schedule of at most [n] steps that [classify]
-    does not flag, no thread fails.  The unbounded statement is NOT proved. *)
-Theorem c08_no_spurious_failure_bounded_partial : forall ps n sch,
+Theorem good_store_init : forall t, good_store (init t).
+Proof. exact good_store_init_l. Qed.
+Print Assumptions good_store_init.
+
+(** regression instances of the two repaired races (classes uidnext_race and
+    create_race of the unrepaired code): the schedules that bounced a delivery
+    now store both messages *)
+Theorem c08_regression_lost_delivery :
+  failed_at (run_sched w_sch (init_cfg (init 0) w_ps)) 0 = false /\
+  failed_at (run_sched w_sch (init_cfg (init 0) w_ps)) 1 = false /\
+  mbox_view (run_sched w_sch (init_cfg (init 0) w_ps)) INBOX = (3, [(1, 0); (2, 1)]).
+Proof. exact c08_regression_lost_delivery_l. Qed.
+Print Assumptions c08_regression_lost_delivery.
+
+Theorem c08_regression_create_race :
+  failed_at (run_sched w2_sch (init_cfg (init 0) w2_ps)) 0 = false /\
+  failed_at (run_sched w2_sch (init_cfg (init 0) w2_ps)) 1 = false /\
+  mbox_view (run_sched w2_sch (init_cfg (init 0) w2_ps)) (S_ "D") = (3, [(1, 0); (2, 1)]).
+Proof. exact c08_regression_create_race_l. Qed.
+Print Assumptions c08_regression_create_race.
+
+(** (e), (a), (d) with UID COPY / UID STORE (Junk move) / EXPUNGE / CREATE threads
+    competing with deliveries for the same mailbox — BOUNDED (complete
+    enumeration of the schedule tree, bounds in the statement; 12 steps cover
+    every complete run of the listed sets).  Unbounded: not proved. *)
+Theorem c08_no_failure_with_atomic_ops_bounded_partial : forall ps n sch,
   In (ps, n) bounded_cases -> (length sch <= n)%nat ->
   Forall (fun i => (i < length ps)%nat) sch ->
-  classify (init 0) ps sch = None ->
-  no_failure (run_sched sch (init_cfg (init 0) ps)) = true.
+  no_failure (run_sched sch (init_cfg s2 ps)) = true.
 Proof. exact c08_bounded_l. Qed.
-Print Assumptions c08_no_spurious_failure_bounded_partial.
+Print Assumptions c08_no_failure_with_atomic_ops_bounded_partial.
